@@ -28,6 +28,14 @@ def gen(tier, seed):
         specs.append((p.__name__, feat, src, inp, cmds))
         specs.append(("plain:" + p.__name__, feat, src, inp, [("quit",)] if inp else []))
         pairs.append((len(specs) - 2, len(specs) - 1))
+    rnd2 = random.Random(seed + 101)
+    for i in range(n // 8):
+        p = dbggen.PROGRAMS_LATER[i % len(dbggen.PROGRAMS_LATER)]
+        src, feat = p(rnd2)
+        cmds = dbggen.gen_script(rnd2, dbggen.READONLY, dbggen.origin_of(src), 14, maxlen=30, end=rnd2.choice(["quit", "eof"]))
+        specs.append((p.__name__, feat, src, [], cmds))
+        specs.append(("plain:" + p.__name__, feat, src, [], []))
+        pairs.append((len(specs) - 2, len(specs) - 1))
     return rnd, specs, pairs
 
 
@@ -57,6 +65,8 @@ def correspondence(ctx, violations, known_hits):
     real["shared_stdin"] = dbgcommon.cli_shared_stream(ctx, violations, n=(24 if ctx.tier == "quick" else 400))
     real["terminal_stdin"] = dbgcommon.cli_tty_stdin(ctx, violations)
     r["evaluations"] += real["terminal_stdin"]["sessions"]
+    real["full_output_mode"] = full_output_mode(ctx, violations, n=(60 if ctx.tier == "quick" else 1200))
+    r["evaluations"] += real["full_output_mode"]["sessions"]
     if ctx.tier != "quick":
         real["very_long_run"] = very_long_run(ctx, violations)
     ctx.cleanup()
@@ -67,6 +77,88 @@ def correspondence(ctx, violations, known_hits):
         "invalid arguments, ended by quit or end of input; each session vs the model AND vs the implementation's own plain run "
         "(final registers, PC, CC, all memory, program output, remaining input, exit status)", profiles,
         direct_comparisons=direct, direct_mismatches=bad, real_binary_without_hooks=real)
+
+
+LONG_NAMES = """.orig x3000
+        lea r0 banner
+        puts
+        and r1 r1 #0
+        add r1 r1 #3
+again   jsr print_countdown_step
+        add r1 r1 #-1
+        brp again
+        lea r0 a_label_of_exactly_31_characters   ;   a comment that makes this source line a good deal longer than any column
+        puts
+        halt
+print_countdown_step
+        ld r0 ascii_zero
+        add                r0                r0                r1
+        out
+        ld r0 blank_13chars
+        out
+        ret
+ascii_zero .fill x30
+blank_13chars      .fill x20
+label_14_chars .fill x0
+banner     .stringz "countdown: "
+a_label_of_exactly_31_characters       .stringz "liftoff\\n"
+"""
+
+
+def full_output_mode(ctx, violations, n):
+    """The real binary WITHOUT --minimal (the mode with the drawn tables, headings and colours switched off by NO_COLOR):
+    `lace debug --command SCRIPT prog` vs `lace run prog`, same standard output byte for byte and same exit status.  Programs
+    with long label names and long source lines (what the breakpoint table and the source excerpts have to cut), scripts of
+    inspection commands with breakpoints on every label."""
+    import os, re
+    import clicommon
+    exe = ctx.cli()
+    rnd = random.Random(ctx.seed + 77)
+    d = clicommon.fresh_dir(ctx, "c09full")
+    jobs, metas = [], []
+    long_labels = re.findall(r"^([A-Za-z_][A-Za-z_0-9]*)", LONG_NAMES, flags=re.M)
+    for k in range(n):
+        if k % 2 == 0:
+            src, feat = LONG_NAMES, 0
+            cmds = []
+            for l in rnd.sample(long_labels, rnd.randrange(1, len(long_labels) + 1)):
+                cmds.append("break add " + l + rnd.choice(["", "", "+1"]))
+            pool = ["break list", "continue", "step", "registers", "assembly", "print r1", "print " + rnd.choice(long_labels), "assembly " + rnd.choice(long_labels),
+                    "step into 3", "break remove " + rnd.choice(long_labels), "echo hello", "help"]
+            cmds += [rnd.choice(pool) for _ in range(rnd.randrange(2, 12))]
+            if "break list" not in cmds:
+                cmds.insert(rnd.randrange(len(cmds) + 1), "break list")
+            cmds += ["continue"] * rnd.choice([0, 0, 8])
+            text = "\n".join(cmds)
+        else:
+            p = dbggen.PROGRAMS[k % len(dbggen.PROGRAMS)]
+            src, feat = p(rnd)
+            if p in (dbggen.p_io, dbggen.p_selfloop, dbggen.p_no_halt):
+                continue
+            cs = dbggen.gen_script(rnd, dbggen.READONLY, dbggen.origin_of(src), 10, maxlen=16, end="eof")
+            text = dbggen.script_text(rnd, cs)
+        f = os.path.join(d, f"p{k}.asm")
+        open(f, "w", encoding="utf-8").write(src)
+        fl = ["-f", "stack"] if feat else []
+        jobs.append(lambda f=f, fl=fl, t=text: (clicommon.run_cli(exe, ["run", f] + fl, d, stdin=b"", timeout=20),
+                                                clicommon.run_cli(exe, ["debug", f] + fl + ["--command", t], d, stdin=b"", timeout=20)))
+        metas.append((src, feat, text))
+    got = clicommon.parallel(jobs)
+    bad = skipped = 0
+    for (src, feat, text), ((prc, pso, pse), (rc, so, se)) in zip(metas, got):
+        if src is LONG_NAMES and (prc != 0 or b"countdown: 3 2 1 liftoff" not in pso):
+            raise RuntimeError("C09 full-output stage: the designed program does not run as designed: %r %r" % (prc, pso[-200:]))
+        if prc == -9 or rc == -9:
+            skipped += 1          # does not terminate (in either mode): outside the property
+            continue
+        if (prc, pso) != (rc, so):
+            bad += 1
+            if bad <= 4:
+                violations.append({"kind": "full-output-mode", "source": src, "feature_stack": feat, "script": text,
+                                   "run": [prc, pso.decode("utf-8", "replace")[-400:]], "debug": [rc, so.decode("utf-8", "replace")[-400:]],
+                                   "debug_stderr_tail": se.decode("utf-8", "replace")[-400:],
+                                   "note": "without --minimal: `lace debug --command SCRIPT` and `lace run` must give the same standard output and exit status"})
+    return {"sessions": len(metas) - skipped, "skipped_nonterminating": skipped, "mismatches": bad}
 
 
 def very_long_run(ctx, violations):
